@@ -314,6 +314,18 @@ func (p *protocol) EncodeValue(v interface{}) error {
 		return p.Send(dNull, nil)
 	}
 
+	// A tagged item decodes into an interface as a tag around the undecoded item
+	if tag, ok := v.(cbor.Tag[cbor.RawBytes]); ok {
+		var inner interface{}
+		if err := cbor.Unmarshal(tag.Val, &inner); err != nil {
+			return fmt.Errorf("error decoding tagged value: %w", err)
+		}
+		if err := p.Send(dTag, tag.Num); err != nil {
+			return fmt.Errorf("error sending tag number to plugin: %w", err)
+		}
+		return p.EncodeValue(inner)
+	}
+
 	switch t := reflect.TypeOf(v); t.Kind() {
 	case reflect.Bool:
 		var param int
@@ -343,7 +355,7 @@ func (p *protocol) EncodeValue(v interface{}) error {
 		return p.EncodeValue(reflect.ValueOf(v).Elem().Interface())
 	}
 
-	panic(fmt.Sprintf("invalid type for encoding to plugin protocol value: %T", v))
+	return fmt.Errorf("invalid type for encoding to plugin protocol value: %T", v)
 }
 
 func (p *protocol) encodeArray(v interface{}) error {
